@@ -29,7 +29,8 @@ LEVEL_TEXT = ("Exploration by generated-input search: extension ASTs (root omitt
               "with generated context mappings at nesting depth 0-3, in/contains, =~ with every flag subset, <>, and/or/not, "
               "== undefined / != missing, nil/none/capitalised literals) placed inside lists, after descendant segments and "
               "nested in filters are compared with the extended reference model, and every alias spelling with its standard "
-              "twin. Membership cases the documentation leaves undefined are excluded and counted.")
+              "twin. Membership cases the documentation leaves undefined are excluded and counted."
+              ' Also exhaustive: unquoted names built around the 17 reserved words (prefix, suffix, doubled, upper-cased) in 9 unquoted positions against the quoted spelling.')
 LEVEL_TEXT += ' Also exhaustive: 28 logical templates in symbol spelling vs 7 word / alias substitutions on all 216 objects over a, b, c in {absent, false, true, 0, 1, null}.'
 BUDGET_S = {"quick": 75, "thorough": 600}
 RULE = ("Extension-capable FilterGen + keys selector, rendered with all alias options on. Non-trivial = the filter outcome differs "
